@@ -127,17 +127,23 @@ def paramStores (n : Nat) (method : String) : List (ParamKey × List Rat) →
     Except Err (List (String × List (List Rat)))
   | [] => .ok []
   | (k, o) :: r =>
+    -- the keys are visited in an arbitrary (set) order and every rejection of the code is a
+    -- `ValueError`; only the model-side `contract` error has to give way to it
     match paramStore n method k o, paramStores n method r with
     | .ok s, .ok ss => .ok ((k.name, s) :: ss)
-    | .error .valueError, _ => .error .valueError
-    | _, .error .valueError => .error .valueError
-    | .error e, _ => .error e
-    | _, .error e => .error e
+    | .error e, .ok _ => .error e
+    | .ok _, .error e => .error e
+    | .error e1, .error e2 => .error (if e2 = .valueError then .valueError else e1)
 
 /-- `DataGeneratorParameter.__post_init__` -/
 def mkParam (n b : Nat) (method : String) (keys : List (ParamKey × List Rat)) :
     Except Err (List (String × List (List Rat))) :=
   if n < b then .error .valueError else paramStores n method keys
+
+/-- `param_batch()` of a loader without any key: `jax.tree_util.tree_transpose` of an empty tree
+    raises a `ValueError` (observed; a loader with no parameter serves nothing). -/
+def paramBatchGuard (nkeys : Nat) : Except Err Unit :=
+  if nkeys = 0 then .error .valueError else .ok ()
 
 /-! ### several networks -/
 
